@@ -142,9 +142,248 @@ def build(recipe):
         return Structure3D(list(m1.residues) + list(m2.residues)), int(p)
     if v == "squash":
         # coordinates scaled towards the centre: many more candidate contacts, crowded edges
-        c = None
         return _rebuild(base, lambda X: (X - X.mean(axis=0)) * p + X.mean(axis=0)), recipe.get("ann_model")
+    if v == "shuffle":
+        # residues listed in a random order (file order != chain/number order)
+        from rnapolis.tertiary import Structure3D
+        rs = list(base.residues)
+        rng.shuffle(rs)
+        return Structure3D(rs), recipe.get("ann_model")
+    if v == "synthbph":
+        return _synth_bph(recipe, rng), None
+    if v == "probe":
+        return _probe(recipe, base), recipe.get("ann_model")
     raise lib.MachineryError(f"unknown variant {v}")
+
+
+# ----------------------------------------------------------------------------- threshold probes
+_mcache = {}
+
+
+def _measured(recipe, base):
+    key = (recipe["file"], recipe.get("read_model"))
+    if key not in _mcache:
+        _mcache[key] = measurer.measure(base, measurer.constants())
+    return _mcache[key]
+
+
+def _rot(axis, deg):
+    a = axis / np.linalg.norm(axis)
+    t = math.radians(deg)
+    Kx = np.array([[0, -a[2], a[1]], [a[2], 0, -a[0]], [-a[1], a[0], 0]])
+    return np.eye(3) + math.sin(t) * Kx + (1 - math.cos(t)) * (Kx @ Kx)
+
+
+def _two(base, i, j, fn):
+    """Structure3D of residues i < j (structure order) with fn applied to the coordinates of residue j"""
+    from rnapolis.tertiary import Atom, Residue3D, Structure3D
+    ri, rj = base.residues[i], base.residues[j]
+    X = fn(np.array([[a.x, a.y, a.z] for a in rj.atoms], dtype=float))
+    atoms = tuple(Atom(a.entity_id, a.label, a.auth, a.model, a.name, float(x[0]), float(x[1]), float(x[2]), a.occupancy)
+                  for a, x in zip(rj.atoms, X))
+    return Structure3D([ri, Residue3D(rj.label, rj.auth, rj.model, rj.one_letter_name, atoms)])
+
+
+def _bisect(f, lo, hi, n=60):
+    flo, fhi = f(lo), f(hi)
+    if flo is None or fhi is None or flo * fhi > 0:
+        return None
+    for _ in range(n):
+        mid = 0.5 * (lo + hi)
+        fm = f(mid)
+        if fm is None:
+            return None
+        if flo * fm <= 0:
+            hi, fhi = mid, fm
+        else:
+            lo, flo = mid, fm
+    return 0.5 * (lo + hi)
+
+
+def _probe(recipe, base):
+    """Two residues of a corpus structure, the second one rigidly moved so that ONE decision quantity sits
+    at its threshold + delta (param = "<quantity>:<delta>"; the seed picks the residue pair / contact)."""
+    K = measurer.constants()
+    U = float(K["micro"])
+    M = _measured(recipe, base)
+    q, delta = recipe["param"].split(":")
+    delta = float(delta)
+    k = int(recipe.get("seed", 0))
+    R = {r["idx"]: r for r in M["residues"]}
+    if q.startswith("stack"):
+        cands = [c for c in M["stack_pairs"] if c["dist_flag"] == "in" and c["nn_flag"] == "in" and c["off_code_flag"] == "in"]
+        if not cands:
+            return base
+        c = cands[(k * 7) % len(cands)]
+        ri, rj = R[c["i"]], R[c["j"]]
+        ci, cj, ni, nj = ri["centroid"], rj["centroid"], ri["normal"], rj["normal"]
+        if q == "stackdist":
+            target = K["stack_max_dist"] / U + delta
+            u = (cj - ci) / np.linalg.norm(cj - ci)
+            return _two(base, c["i"], c["j"], lambda X: X + (target - c["dist"]) * u)
+        if q == "stacknn":
+            target = K["stack_max_normal_angle"] / U + delta
+            A = measurer.angle_deg(ni, nj)
+            w = np.cross(ni, nj)
+            if np.linalg.norm(w) < 1e-6:
+                w = np.cross(ni, np.array([1.0, 0.0, 0.0]))
+            want = target if A <= 90 else 180.0 - target
+            Rm = _rot(w, want - A)
+            return _two(base, c["i"], c["j"], lambda X: (X - cj) @ Rm.T + cj)
+        if q == "stackoff":
+            target = K["stack_max_offset_angle"] / U + delta
+            v = ci - cj
+            d = np.linalg.norm(v)
+            offs = [measurer.angle_deg(v, ni), measurer.angle_deg(v, nj)]
+            n = ni if offs[0] <= offs[1] else nj
+            vh = v / d
+            pz = vh - np.dot(vh, n) * n
+            if np.linalg.norm(pz) < 1e-6:
+                pz = np.cross(n, np.array([1.0, 0.0, 0.0]))
+            pz = pz / np.linalg.norm(pz)
+
+            def f(t):
+                vv = math.cos(math.radians(t)) * n + math.sin(math.radians(t)) * pz
+                return min(measurer.angle_deg(vv, ni), measurer.angle_deg(vv, nj)) - target
+            t = _bisect(f, 0.0, 89.0)
+            if t is None:
+                return _two(base, c["i"], c["j"], lambda X: X)
+            vv = math.cos(math.radians(t)) * n + math.sin(math.radians(t)) * pz
+            newcj = ci - d * vv
+            return _two(base, c["i"], c["j"], lambda X: X + (newcj - cj))
+    # base-pair quantities: residue pairs with >= 2 certain base-to-base contacts
+    groups = {}
+    for c in M["contacts"]:
+        if c["kind"] == "base" and c["dist_flag"] == "in" and c["ang1_flag"] == "in" and c["ang2_flag"] == "in":
+            groups.setdefault((c["i"], c["j"]), []).append(c)
+    keys = sorted(g for g in groups if len(groups[g]) >= 2 and M["pair_torsions"].get(g, {}).get("torsion") is not None)
+    if not keys:
+        return base
+    g = keys[(k * 5) % len(keys)]
+    c = groups[g][(k // 2) % len(groups[g])]
+    ri, rj = R[g[0]], R[g[1]]
+    pa, pb = ri["atoms"][c["a"]], rj["atoms"][c["b"]]
+    if q == "hbdist":
+        target = K["hbond_max_dist"] / U + delta
+        u = (pb - pa) / np.linalg.norm(pb - pa)
+        return _two(base, g[0], g[1], lambda X: X + (target - c["dist"]) * u)
+    if q in ("hbangle_lo", "hbangle_hi"):
+        target = (K["hbond_angle_lo"] if q.endswith("lo") else K["hbond_angle_hi"]) / U + delta
+        n = ri["normal"]
+
+        def f(sft):
+            return measurer.angle_deg(n, pa - (pb + sft * n)) - target
+        sft = _bisect(f, -6.0, 6.0)
+        if sft is None:
+            return _two(base, g[0], g[1], lambda X: X)
+        return _two(base, g[0], g[1], lambda X: X + sft * n)
+    if q == "cistrans":
+        t0 = M["pair_torsions"][g]["torsion"]
+        target = (K["cis_trans_boundary"] / U + delta) * (1.0 if t0 >= 0 else -1.0)
+        axis = rj["glyco"] - ri["glyco"]
+        if np.linalg.norm(axis) < 1e-6:
+            return _two(base, g[0], g[1], lambda X: X)
+        out = None
+        for sign in (1.0, -1.0):      # rotating j about the N...N axis through N_j shifts the torsion by the angle
+            Rm = _rot(axis, sign * (target - t0))
+            cand = _two(base, g[0], g[1], lambda X: (X - rj["glyco"]) @ Rm.T + rj["glyco"])
+            a = {x.name: np.array([x.x, x.y, x.z]) for x in reversed(cand.residues[1].atoms)}
+            t1 = measurer.torsion_deg(ri["sugar"], ri["glyco"], a[K["glycosidic_purine"] if rj["letter"] in K["purines"]
+                                                                   else K["glycosidic_other"]], a[K["sugar_atom"]])
+            if t1 is not None and abs(t1 - target) < 1e-3:
+                out = cand
+                break
+        return out if out is not None else cand
+    raise lib.MachineryError(f"unknown probe {q}")
+
+
+PROBES = {"C04": [("stackdist", 0.02), ("stacknn", 0.3), ("stackoff", 0.3)],
+          "C03": [("hbdist", 0.02), ("hbangle_lo", 0.3), ("hbangle_hi", 0.3), ("cistrans", 0.3)]}
+
+
+def probe_recipes(family, tier):
+    files = QUICK_FILES[1:3] if tier == "quick" else [f for f in corpus_files()]
+    seeds = range(3) if tier == "quick" else range(12)
+    out = []
+    for f in files:
+        for q, d in PROBES[family]:
+            for sgn in (-1.0, 1.0):
+                for k in seeds:
+                    out.append({"file": f, "variant": "probe", "param": f"{q}:{sgn * d:+g}", "seed": k})
+                if tier != "quick":
+                    for k in range(3):
+                        out.append({"file": f, "variant": "probe", "param": f"{q}:{sgn * d / 20:+g}", "seed": k})
+    for r in out:
+        r["id"] = "|".join(str(r.get(k, "")) for k in ("file", "read_model", "variant", "param", "seed"))
+    return out
+
+
+TEMPLATES = {"A": "1ehz-assembly-1.cif", "G": "1ehz-assembly-1.cif", "C": "1ehz-assembly-1.cif",
+             "U": "1ehz-assembly-1.cif", "T": "2HY9.cif"}
+
+
+def _template(letter, K):
+    """first residue of that letter carrying every base atom, C1' and O2'/O4' where applicable"""
+    s = load(TEMPLATES[letter])
+    need = set(K["base_atoms"][letter]) | {K["sugar_atom"]}
+    for r in s.residues:
+        if r.one_letter_name == letter and need <= {a.name for a in r.atoms}:
+            return r
+    raise lib.MachineryError(f"no template residue for {letter}")
+
+
+def _synth_bph(recipe, rng):
+    """One complete nucleotide plus an artificial acceptor residue whose oxygens are placed at random
+    within/around hydrogen-bond distance of the chosen base donor atoms (param = "<letter>:<donor>+<donor>:<p|r>")."""
+    from rnapolis.common import ResidueAuth
+    from rnapolis.tertiary import Atom, Residue3D, Structure3D
+    K = measurer.constants()
+    letter, donors, kind = recipe["param"].split(":")
+    donors = donors.split("+")
+    t = _template(letter, K)
+    at = {}
+    for a in t.atoms:
+        at.setdefault(a.name, np.array([a.x, a.y, a.z]))
+    cen = np.mean([at[n] for n in K["base_atoms"][letter] if n in at], axis=0)
+    names = ["OP1", "OP2"] if kind == "p" else ["O2'", "O4'"]
+    auth = ResidueAuth("Z", 900, None, "U")
+    atoms = []
+    for k, d in enumerate(donors):
+        out = at[d] - cen
+        out = out / np.linalg.norm(out)
+        others = [at[o] for o in donors if o != d]
+        while True:
+            u = np.array([rng.gauss(0, 1) for _ in range(3)])
+            u = u / np.linalg.norm(u)
+            # roughly outward, and leaning away from the other chosen donor (so that contacts stay separate)
+            if float(np.dot(u, out)) > 0.2 and all(float(np.dot(u, at[d] - o)) > 0.0 for o in others):
+                break
+        r = rng.uniform(2.6, 4.15)
+        x, y, z = (float(c) for c in at[d] + r * u)
+        atoms.append(Atom(None, None, auth, t.model, names[k], x, y, z, 1.0))
+    if kind == "p":
+        c = np.mean([[a.x, a.y, a.z] for a in atoms], axis=0) + np.array([0.3, 0.2, 0.1])
+        far = cen + 30.0 * (c - cen) / np.linalg.norm(c - cen)
+        atoms.insert(0, Atom(None, None, auth, t.model, "P", float(far[0]), float(far[1]), float(far[2]), 1.0))
+    acc = Residue3D(None, auth, t.model, "U", tuple(atoms))
+    return Structure3D([t, acc])
+
+
+def synth_bph_recipes(per_subset):
+    import itertools
+    K = measurer.constants()
+    out = []
+    for letter in K["letters"]:
+        ds = sorted(K["bph_rule"][letter])
+        subsets = [c for n in (1, 2) for c in itertools.combinations(ds, n)]
+        for sub in subsets:
+            for kind in ("p", "r"):
+                for k in range(per_subset * (4 if len(sub) == 2 else 1)):
+                    out.append({"file": TEMPLATES[letter], "variant": "synthbph",
+                                "param": f"{letter}:{'+'.join(sub)}:{kind}", "seed": k})
+    for r in out:
+        r["id"] = "|".join(str(r.get(k, "")) for k in ("file", "read_model", "variant", "param", "seed"))
+    return out
 
 
 def recipes(tier):
@@ -153,12 +392,17 @@ def recipes(tier):
         files = [f for f in QUICK_FILES if f in corpus_files()]
         for f in files:
             out.append({"file": f, "variant": "orig"})
+            out.append({"file": f, "variant": "jitter", "param": 0.1, "seed": 1})
+            out.append({"file": f, "variant": "squash", "param": 0.93})
+            if f in files[:2]:
+                out.append({"file": f, "variant": "shuffle", "seed": 1})
+            if f == files[0]:
+                continue            # the largest quick structure gets four variants only
             out.append({"file": f, "variant": "rigid", "seed": 1})
-            for s in SIGMAS:
-                out.append({"file": f, "variant": "jitter", "param": s, "seed": 1})
+            out.append({"file": f, "variant": "jitter", "param": 0.02, "seed": 1})
+            out.append({"file": f, "variant": "jitter", "param": 0.3, "seed": 1})
             out.append({"file": f, "variant": "thinres", "param": 0.2, "seed": 1})
             out.append({"file": f, "variant": "thinatoms", "param": 0.05, "seed": 1})
-            out.append({"file": f, "variant": "squash", "param": 0.93})
         out.append({"file": files[2], "variant": "twomodel", "param": 1})
         out.append({"file": files[2], "variant": "twomodel", "param": 2})
         out.append({"file": "2HY9.cif", "read_model": 2, "variant": "orig"})
@@ -176,6 +420,8 @@ def recipes(tier):
                 out.append({"file": f, "variant": "thinres", "param": 0.2, "seed": k})
                 out.append({"file": f, "variant": "thinatoms", "param": 0.05, "seed": k})
             out.append({"file": f, "variant": "thinatoms", "param": 0.2, "seed": 7})
+            for k in range(2):
+                out.append({"file": f, "variant": "shuffle", "seed": k})
             for p in (0.9, 0.93, 0.96):
                 out.append({"file": f, "variant": "squash", "param": p})
             out.append({"file": f, "variant": "twomodel", "param": 1})
@@ -535,14 +781,15 @@ def run_mcs(rep, sc, runs):
 
 
 def validate(family, cases, sc):
-    chunks = max(1, min(lib.NCPU, len(cases)))
+    sizes = [len(json.dumps(c)) for c in cases]
+    # one TLC process per ~600 kB of trace (a JVM start costs more than validating small cases)
+    chunks = max(1, min(lib.NCPU, len(cases), 1 + sum(sizes) // 600000))
     # balance: largest cases first, dealt round-robin, so that chunks have similar weight
-    order = sorted(range(len(cases)), key=lambda k: -len(json.dumps(cases[k])))
+    order = sorted(range(len(cases)), key=lambda k: -sizes[k])
     dealt = [[] for _ in range(chunks)]
     for n, k in enumerate(order):
         dealt[n % chunks].append(cases[k])
     flat = [c for part in dealt for c in part]
-    # lib.trace_validate cuts consecutive slices of equal length
     res = lib.trace_validate("Trace_Annot", f"Trace_Annot_{family}.cfg", flat, sc, chunks=chunks)
     info = split_info(res)
     return res, info
